@@ -129,21 +129,33 @@ def valEqModel : Val → Val → Bool
   | .flt a, .flt b => printF a == printF b     -- Float: equal to within the printed precision
   | a, b => a == b
 
-def doR (k : Kind) (start : Nat) (its : List Item) (z : List Nat) : IO Unit := do
+def doR (k : Kind) (start : Nat) (pm : Bool) (its : List Item) (z : List Nat) : IO Unit := do
   let c := srcCfg
   let o : Sink := { kind := k, data := filler start }
-  let (o', wpos) := printItems c o start its
-  let text := o'.data.drop start
-  let inp : Input := { kind := k, text := o'.data ++ z, cur := start }
-  let (vals, r) := scanItems c inp start (its.map Item.shape)
-  let (rs, tell) := showRes k r
-  IO.println s!"O R w={wpos} text={dump text} r={rs} vals={showVals vals} tell={tell}"
-  let want := its.filterMap Item.val?
-  let rt : Bool := match r with
-    | .ok (i, p) => p == wpos && vals.length == want.length && (vals.zip want).all (fun (a, b) => valEqModel a b) &&
-        (k == .str || i.cur == wpos) && wpos == start + text.length
-    | _ => false
-  IO.println s!"M rt={if rt then 1 else 0} contract={if contractOK c k its z then 1 else 0}"
+  -- print mode: ONE print_to_with / scan_from_with on the format string (the model cuts it with the extracted conversion sets);
+  -- show mode: one call per item
+  let fmt := its.flatMap Item.fmt
+  let w : Option (Sink × Nat) :=
+    if pm then printFmt c o start fmt (its.filterMap Item.val?) else some (printItems c o start its)
+  match w with
+  | none => IO.println "O R w=unmodelled"
+  | some (o', wpos) =>
+    let text := o'.data.drop start
+    let inp : Input := { kind := k, text := o'.data ++ z, cur := start }
+    let rr : Option (List Val × Res (Input × Nat)) :=
+      if pm then scanFmt c inp start fmt (its.filterMap (fun it => sentinel it.shape))
+      else some (scanItems c inp start (its.map Item.shape))
+    match rr with
+    | none => IO.println s!"O R w={wpos} text={dump text} r=unmodelled"
+    | some (vals, r) =>
+      let (rs, tell) := showRes k r
+      IO.println s!"O R w={wpos} text={dump text} r={rs} vals={showVals vals} tell={tell}"
+      let want := its.filterMap Item.val?
+      let rt : Bool := match r with
+        | .ok (i, p) => p == wpos && vals.length == want.length && (vals.zip want).all (fun (a, b) => valEqModel a b) &&
+            (k == .str || i.cur == wpos) && wpos == start + text.length
+        | _ => false
+      IO.println s!"M rt={if rt then 1 else 0} contract={if contractOK c k its z then 1 else 0}"
 
 def doK (k : Kind) (start : Nat) (sh : Shape) (text : List Nat) : IO Unit := do
   let inp : Input := { kind := k, text := text, cur := start }
@@ -161,7 +173,7 @@ def main (args : List String) : IO Unit := do
       | some k, some start, some pm =>
         if start > 4096 || toks.length > 64 then IO.println "O bad-op" else
         match parseItems pm toks with
-        | some (its, z) => doR k start its z
+        | some (its, z) => doR k start pm its z
         | none => IO.println "O bad-op"
       | _, _, _ => IO.println "O bad-op"
     | ["K", src, st, kind, x] =>
